@@ -5,7 +5,7 @@
    and LSB residues of variable-length fields preceded by their size on 4/12/28 bits), then the payload.
    Only statements; proofs in theories/SchcCodec.v. *)
 From Coq Require Import ZArith List Bool.
-From MS Require Import PyBase Bits Schc SchcSpec SchcCodec.
+From MS Require Import PyBase Buffer Bits BufferAbs Schc SchcSpec SchcCodec SchcBytes SchcRefine.
 Import ListNotations.
 Open Scope Z_scope.
 
@@ -22,6 +22,15 @@ Proof. intros H. apply compress_layout. unfold layout. rewrite H. reflexivity. Q
 Theorem c02_size n : 0 <= n < 65536 -> encode_length n = Ok (spec_size n).
 Proof. exact (encode_length_spec n). Qed.
 
+(* composition with the byte-level Buffer model: the compressor written with the Buffer operations (SchcBytes.bcompress: b_add,
+   lsb_bytes, dict_get on byte-level buffers of either padding side) returns a canonical buffer denoting exactly the RFC layout *)
+Theorem c02_layout_bytes pd r d s : canon_pdesc pd -> canon_rule r ->
+  layout (abs_pdesc abs pd) (abs_rule abs r) d = Some s ->
+  exists x, bcompress pd r d = Ok x /\ canon x /\ abs x = s.
+Proof. intros Hp Hr Hl. apply (bcompress_refines pd r d s Hp Hr). apply compress_layout. exact Hl. Qed.
+Theorem c02_size_bytes n p : encode_length n = Ok p -> exists x, bencode_length n = Ok x /\ canon x /\ abs x = p.
+Proof. exact (bencode_length_refines n p). Qed.
+
 (* non-vacuity: a two-field rule (LSB variable length, mapping) on a concrete packet *)
 Example c02_ex :
   let f1 := mkfield (mkfid P_Other 1) [true;false;true;true;false] 0 in
@@ -36,3 +45,5 @@ Print Assumptions c02_layout.
 Print Assumptions c02_fields.
 Print Assumptions c02_no_compression.
 Print Assumptions c02_size.
+Print Assumptions c02_layout_bytes.
+Print Assumptions c02_size_bytes.
